@@ -201,6 +201,7 @@ class Contract:
     prelude: list[str] = field(default_factory=list)  # optional prelude axiom groups to include (e.g. "idx_app_rev")
     source_name: str = ""  # qualified name in the source when it differs from the contract's key (e.g. a property setter)
     decorator: str = ""  # pick the definition carrying this decorator (e.g. "logic_gate_tree.setter")
+    is_property: bool = False  # a @property getter: `obj.name` in code and clauses denotes a call of this contract
 
 
 @dataclass
@@ -679,6 +680,13 @@ class Engine:
             self.check(st, z3.Not(self.pre.opt_is_none(obj.ty, obj.t)), "AttributeError", f"{ast.unparse(n.value)} is None")
             obj = V(self.pre.opt_val(obj.ty, obj.t), obj.ty.inner)
         if isinstance(obj.ty, RecTy):
+            pc = self.contracts.get(f"{obj.ty.name}.{n.attr}")
+            if pc is not None and pc.is_property and n.attr not in obj.ty.fields:
+                if pc.name not in self.func_sigs:
+                    raise ContractError(f"{pc.name}: no signature bound (property missing in source?)")
+                _, rty = self.func_sigs[pc.name]
+                pname = self.func_sigs[pc.name][0][0][0]
+                return self.apply_contract(pc, {pname: obj}, rty, st, n)
             return self.read_field(st, obj, n.attr)
         if isinstance(obj.ty, StructTy) and n.attr in obj.ty.fields:
             return V(self.pre.struct_get(obj.ty, obj.t, n.attr), obj.ty.fields[n.attr])
@@ -1835,6 +1843,9 @@ class Engine:
 
     def pure_app(self, c: Contract, args: dict[str, V], rty: Ty) -> V:
         params, _ = self.func_sigs[c.name]
+        hr = getattr(c, "heap_reads", None)
+        if hr and self.cur_contract is not None and hr & set(self.cur_contract.modifies):
+            raise ContractError(f"{c.name} depends on {sorted(hr)} which {self.cur_contract.name} may modify: its pure symbol cannot be used here")
         if c.name not in self.pure_decls:
             sig = [self.sort(t) for _, t in params] + [self.sort(rty)]
             self.pure_decls[c.name] = z3.Function("fn_" + c.name.replace(".", "_"), *sig)
